@@ -111,13 +111,26 @@ pub fn same_values(a: &Summary, b: &Summary) -> bool {
 
 const VAL: &str = "set:a= é";
 
+/// boundary values, or a sign and up to three symbolic digits (built by multiplication, so no
+/// 64-bit division reaches the solver)
 fn any_size(tag: &str) -> i64 {
     match sym::choose(tag, 5) {
         0 => i64::MIN,
         1 => i64::MAX,
         2 => 0,
         3 => -1,
-        _ => sym::any_i64(tag),
+        _ => {
+            let d = sym::any_bytes(tag, "hex:30-39", 1, 3);
+            let mut n: i64 = 0;
+            for x in d.iter() {
+                n = n * 10 + (*x - b'0') as i64;
+            }
+            if sym::choose(tag, 2) == 1 {
+                -n
+            } else {
+                n
+            }
+        }
     }
 }
 
